@@ -1,5 +1,5 @@
 """C03 — back-pressure releases: spare worker capacity is always used (no lost wake-up)."""
-from props.srvlib import COMMON_META, gen_scripts, make_stream, bfs_stream, c03_pred, saturates
+from props.srvlib import COMMON_META, gen_scripts, make_stream, bfs_stream, bld_stream, c03_pred, saturates
 
 META = dict(COMMON_META)
 META.update({
@@ -24,4 +24,5 @@ def streams(ctx):
     cases = gen_scripts(ctx, n, ["e", "ye", "ye", "cye", "ciye", "dye", "cidye"], ls=(1, 1, 2, 3, 4))
     return [bfs_stream(ctx, c03_pred, "dc", saturates), make_stream("srv", cases, c03_pred,
                         "%d generated fault-free scripts with settling epilogue + corpus; quiescent-state predicate and end-of-run dispatch check" % n,
-                        saturates)]
+                        saturates),
+            bld_stream(ctx, ("C03",), ["", "", "c"], 64, 1500, ls=(1, 1, 2, 3, 4))]
